@@ -159,3 +159,22 @@ def resultsOf {α} (evs : List (Ev α)) : List (MNode α) :=
   evs.filterMap fun e => match e with | .result n => some n | _ => none
 
 end Treepath
+
+namespace Treepath
+
+/-- number of node/step examinations the definition of a path requires from node `n`: one per
+application of a step to a node, plus one per node the step produces (for a recursive step:
+one per node of the pre-order listing) -/
+def exams : List (Step J) → MNode J → Nat
+  | [], _ => 0
+  | .recur :: rest, n =>
+    1 + ((recNodes n).map fun m => 1 + (if m.data.isContainer then exams rest (.imag m) else 0)).sum
+  | s :: rest, n =>
+    1 + ((evalStep s n).1.map fun m => 1 + exams rest m).sum
+
+/-- match attempts of the search itself (events stamped with a predicate's candidate belong to
+that predicate's own nested search) -/
+def attemptsTop {α} (evs : List (Ev α)) : Nat :=
+  evs.countP fun e => match e with | .attempt _ _ _ none => true | _ => false
+
+end Treepath
